@@ -12,6 +12,7 @@ import (
 	"net"
 	"net/http"
 	"os"
+	"os/exec"
 	"path/filepath"
 	"runtime"
 	"strconv"
@@ -753,6 +754,65 @@ func main() {
 	sv := &server{ln: &pipeListener{ch: make(chan net.Conn), closed: make(chan struct{})}, sessions: map[int]*session{}}
 	go (&http.Server{Handler: sv}).Serve(sv.ln)
 
+	// A panic inside the client's own goroutines cannot be recovered by the harness: a few
+	// plain sessions are therefore run first in a child process; if that dies, the crash is
+	// the finding and the script that was running is its replay.
+	if os.Getenv("C16_CANARY") != "" {
+		var list []script
+		json.Unmarshal([]byte(os.Getenv("C16_CANARY")), &list)
+		for i, sc := range list {
+			fmt.Println("start", i)
+			s := &session{id: i, sc: sc, sids: map[string]bool{}, allOK: true, closedAt: -1, reqSeen: make(chan int, 64)}
+			total := 0
+			for _, w := range sc.Writes {
+				total += w
+			}
+			s.up, s.down = pattern(17, total), pattern(91, sc.Down)
+			sv.mu.Lock()
+			sv.sessions[i] = s
+			sv.mu.Unlock()
+			runSession(sv, cf, s)
+		}
+		time.Sleep(50 * time.Millisecond)
+		fmt.Println("done")
+		os.Exit(0)
+	}
+	canary := func(list []script) bool {
+		b, _ := json.Marshal(list)
+		cmd := exec.Command(os.Args[0])
+		cmd.Env = append(os.Environ(), "C16_CANARY="+string(b))
+		var out, errb bytes.Buffer
+		cmd.Stdout, cmd.Stderr = &out, &errb
+		done := make(chan error, 1)
+		cmd.Start()
+		go func() { done <- cmd.Wait() }()
+		var err error
+		select {
+		case err = <-done:
+		case <-time.After(120 * time.Second):
+			cmd.Process.Kill()
+			err = fmt.Errorf("the child did not finish within 120 s (bounded wait)")
+		}
+		if err == nil && strings.Contains(out.String(), "done") {
+			return true
+		}
+		last := 0
+		for _, l := range strings.Split(out.String(), "\n") {
+			if f := strings.Fields(l); len(f) == 2 && f[0] == "start" {
+				last, _ = strconv.Atoi(f[1])
+			}
+		}
+		msg := errb.String()
+		if i := strings.Index(msg, "panic:"); i >= 0 {
+			msg = msg[i:]
+		}
+		if len(msg) > 900 {
+			msg = msg[:900]
+		}
+		r.Violate("client-crashed", "impl-oracle", fmt.Sprintf("session %s: the process running the meek_lite client died (%v): %s", list[last].Name, err, msg), list[last])
+		return false
+	}
+
 	var scripts []script
 	if r.ReplayIn != "" {
 		var sc script
@@ -781,6 +841,11 @@ func main() {
 		for i := 0; i < n; i++ {
 			scripts = append(scripts, genScript(rng, i))
 		}
+	}
+
+	r.Case("canary", false)
+	if !canary(append([]script{}, closeEverywhere()[2], closeEverywhere()[9], closeEverywhere()[14], scripts[0])) {
+		r.Finish()
 	}
 
 	const par = 12
